@@ -379,7 +379,7 @@ func c09Small() *C09 {
 }
 
 func init() {
-	Register("C09", MultiRunner(func(tier string) ([]MultiCase, []string) {
+	c09base := MultiRunner(func(tier string) ([]MultiCase, []string) {
 		d3, d4, dl := 5, 4, 60*time.Second
 		if tier == "thorough" {
 			d3, d4, dl = 6, 5, 10*time.Minute
@@ -396,6 +396,67 @@ func init() {
 				"stakes {1,2,10^6,2^40} (ties, one dominant validator), bond/unbond, key registration per chain through the real MsgDelegateKeys; all validators start bonded with stake 1 and no keys",
 				"a published set is checked in the BeginBlocker that publishes it; the 5% rule is checked after every BeginBlocker with exact integers",
 				"tie-break determinism = identical mhub2 store after BeginBlocker under every permutation of the order in which the staking keeper returns bonded validators",
+				"second part: the application as wired in app.go (real x/staking, x/slashing, x/evidence; three genesis validators, two of which register keys by message) explored over application hashes like C05's second part; after every block the latest signer set of ethereum and minter (LatestSignerSetTx query) is compared with the bonded validators, powers (staking Validators query) and keys (DelegateKeys query) the previous block left behind; in a block in which x/slashing or x/evidence may jail a validator before the bridge's BeginBlocker the state after the block is accepted as reference too",
 			}
-	}))
+	})
+	Register("C09", func(tier string) *Runner {
+		b := c09base(tier)
+		return &Runner{Replay: func(t string, seed int, ops []engine.Op) []engine.Violation {
+			if len(ops) > 0 && strings.HasPrefix(ops[0].Kind, "App:") {
+				return c09AppReplay(ops)
+			}
+			return b.Replay(t, seed, ops)
+		}, Run: func(o RunOpts) Output {
+			out := b.Run(o)
+			if len(out.Violations) > 0 || out.InternalError != "" {
+				return out
+			}
+			cov, found := appSearch(o.Tier, o.Workers, c09AppObserver)
+			cov["application_signer_sets_published_and_checked"] = c09AppStats.SetsPublished
+			cov["application_five_percent_checks"] = c09AppStats.LagChecks
+			cov["application_five_percent_checks_with_key_holders"] = c09AppStats.KeyHolderBlocks
+			cov["application_jail_blocks_with_key_holders"] = c09AppStats.JailBlocksWithKeys
+			if c, ok := out.Evidence["coverage"].(map[string]interface{}); ok {
+				for k, v := range cov {
+					c[k] = v
+				}
+			}
+			if found != nil {
+				n := 0
+				for i := 0; i < 5; i++ {
+					if len(c09AppReplay(found.Path)) > 0 {
+						n++
+					}
+				}
+				found.Reproduced = n
+				if n == 5 {
+					out.Violations = append(out.Violations, *found)
+				} else {
+					out.InternalError = fmt.Sprintf("application path %v failed once and %d of 5 times when replayed", found.Path, n)
+				}
+			}
+			out.Summary += fmt.Sprintf(" app_states=%v app_transitions=%v app_sets_checked=%v", cov["application_states"], cov["application_transitions"], cov["application_signer_sets_published_and_checked"])
+			return out
+		}}
+	})
+}
+
+func c09AppReplay(ops []engine.Op) []engine.Violation {
+	var path []int
+	for _, o := range ops {
+		name := strings.TrimPrefix(o.Kind, "App:")
+		for i, n := range c05AppOps {
+			if n == name {
+				path = append(path, i)
+			}
+		}
+	}
+	r := appExec(path, 3, c09AppObserver)
+	if r.Fail != nil {
+		return []engine.Violation{c05AppViolation(path, r).Violation}
+	}
+	if r.Obs != nil {
+		return []engine.Violation{*r.Obs}
+	}
+	return nil
 }
